@@ -46,6 +46,7 @@ type typesMap struct {
 	prefix     string
 	generated  map[string]bool
 	funcToTyps map[string][]types.Type
+	funcNames  []string
 	typss      [][]types.Type
 	reserved   map[string]struct{}
 	autoname   bool
@@ -58,6 +59,7 @@ func newTypesMap(qual types.Qualifier, prefix string, reserved map[string]struct
 		prefix:     prefix,
 		generated:  make(map[string]bool),
 		funcToTyps: make(map[string][]types.Type),
+		funcNames:  nil,
 		typss:      nil,
 		reserved:   reserved,
 		autoname:   autoname,
@@ -116,6 +118,7 @@ func (tm *typesMap) SetFuncName(funcName string, typs ...types.Type) (string, er
 		return "", fmt.Errorf("conflicting function names %s(%v) and %s(%v)", funcName, ts, funcName, typs)
 	}
 	tm.funcToTyps[funcName] = typs
+	tm.funcNames = append(tm.funcNames, funcName)
 	tm.typss = append(tm.typss, typs)
 	return funcName, nil
 }
@@ -184,8 +187,10 @@ func (tm *typesMap) nameOf(typs []types.Type) (string, bool) {
 			}
 		}
 	}
-	for name, ts := range tm.funcToTyps {
-		if eq(typs, ts) {
+	// funcNames is in order of registration, so that when more than one function's types are assignable from typs,
+	// the same one is found on every run, unlike ranging over the funcToTyps map.
+	for _, name := range tm.funcNames {
+		if eq(typs, tm.funcToTyps[name]) {
 			return name, true
 		}
 	}
